@@ -3,9 +3,10 @@
    the .ml lands there. *)
 From Coq Require Import Extraction ExtrOcamlBasic.
 From Coq Require Import List NArith.
-From FsDb Require Import VList VListRun.
+From FsDb Require Import VList VListRun Codec.
 
 Extraction Language OCaml.
 
 Extraction "fsdb_model.ml"
-  VListRun.vrun VListRun.vrun_spec.
+  VListRun.vrun VListRun.vrun_spec
+  Codec.run_marshal Codec.run_unmarshal Codec.uuid_format Codec.uuid_parse.
